@@ -235,6 +235,17 @@ def bean_layer(ctx):
             for col in t['columns']:
                 type_oracle(ctx, conn, 'SELECT %s FROM #%s' % (col['name'], tname), 'column:%s.%s' % (tname, col['name']))
             type_oracle(ctx, conn, 'SELECT * FROM #%s' % tname, 'wildcard:%s' % tname)
+        # every postings column again on the rows that OPEN / CLOSE / CLEAR synthesise (summarisation and transfer entries
+        # carry no metadata), and on the right of IN through a subquery (any datatype, hashable or not)
+        dates = sorted({e.date for e in entries})
+        mid = dates[len(dates) // 2].isoformat() if dates else '2020-01-01'
+        for col in facts['tables']['postings']['columns']:
+            for frm in ('OPEN ON %s' % mid, 'CLOSE ON %s' % mid, 'CLEAR', 'OPEN ON %s CLOSE CLEAR' % mid):
+                type_oracle(ctx, conn, 'SELECT %s FROM %s' % (col['name'], frm), 'column-summarised:%s' % col['name'])
+            type_oracle(ctx, conn, 'SELECT count(*) AS n FROM #postings WHERE %s IN (SELECT %s FROM #postings WHERE number > 0)'
+                        % (col['name'], col['name']), 'in-subquery:%s' % col['name'])
+            type_oracle(ctx, conn, 'SELECT %s NOT IN (SELECT %s FROM #postings) AS x FROM #postings' % (col['name'], col['name']),
+                        'in-subquery:%s' % col['name'])
         # structured attributes
         for sname, attrs in facts['structures'].items():
             base = {'position': ('position', 'postings'), 'cost': ('position.cost', 'postings'), 'amount': ('price', 'postings'),
